@@ -17,18 +17,36 @@ to the unverified string join/split).
 Scenario (stream `seq`): `{"steps":[{"op":"req","c":0,"i":1,"r":""},{"op":"done","c":0,"i":1,"r":"ok"}]}`.
 * `req c i`: caller `c` calls `Pull(image i)`; skipped (`b`) while `c` still waits for an answer.
 * `done i ok|err`: the pull in flight for image `i` returns; nothing happens (`n`) if none is.
+* `park i ok|err k mid` (stream `park`): `{"op":"park","c":0,"i":0,"r":"ok","k":1,"mid":[{"c":0,"i":0}]}` -
+  the pull in flight for image `i` returns and the real `handleResponse` is parked after its first
+  `k` sends (`P`), the requests `mid` arrive (`w` issued / `b` not issued), the broadcast finishes and
+  the requests issued meanwhile go through (`U`).  `model` prints these records as the
+  statement-level model `ReqMgrFine` produces them (with `l=1`: the lock is held at `P` and `w`);
+  `monitor` judges the group once it is over (`ReqMgrTrace.collapse`, the same on the
+  implementation's records): pulls started / in flight afterwards, everybody answered by the
+  broadcast, nothing aliased - it does not look at `l`, nor at when a request issued meanwhile
+  was served.
 * after the last step every pull still in flight is completed with `ok`, in image order (`D`).
-Scenario (stream `race`, exploration): `{"free":{"callers":8,"images":2,"rounds":50,"seed":1,"errmod":3}}`.
+Scenario (streams `race`, `storm`; exploration):
+`{"free":{"callers":8,"images":2,"rounds":50,"seed":1,"errmod":3}}` (+ `"files"`, `"fsize"`: size of the
+pulled package).
 -/
 namespace Pko.Drv.C20
 open Lean Pko.Model.ReqMgr Pko.Model.ReqMgrTrace
 open Pko.Model.ReqMgrSpec (Spec)
+
+structure JMid where
+  c : Nat
+  i : Nat
+  deriving FromJson
 
 structure JStep where
   op : String
   c : Nat
   i : Nat
   r : String
+  k : Option Nat
+  mid : Option (List JMid)
   deriving FromJson
 
 structure Free where
@@ -37,6 +55,8 @@ structure Free where
   rounds : Nat
   seed : Nat
   errmod : Nat
+  files : Option Nat
+  fsize : Option Nat
   deriving FromJson
 
 structure Scn where
@@ -48,6 +68,10 @@ def toSStep (j : JStep) : SStep :=
   if j.i ≥ nImg then .bad   -- the harness only scripts `nImg` images
   else if j.op == "req" then .req j.c j.i
   else if j.op == "done" then .done j.i (j.r == "err")
+  else if j.op == "park" then
+    let mid := j.mid.getD []
+    if mid.any (fun m => m.i ≥ nImg) then .bad
+    else .park j.i (j.r == "err") (j.k.getD 0) (mid.map fun m => (m.c, m.i))
   else .bad
 
 def resStr : Result → String
@@ -64,15 +88,30 @@ def retStr (l : List (Caller × Result)) : String :=
 def render (tag : String) (o : Obs) : String :=
   s!"{tag} p={natsStr o.started} f={natsStr o.inflight} r={retStr o.returned} a={o.aliased}"
 
-def renderRec : Rec → String
+/-- A record as the specification prescribes it. -/
+def renderSpec : Rec → String
   | .step tag o => render tag o
   | .bad => "BAD-OP"
   | .fin w => s!"end w={w}"
 
-/-- Run a scenario on a machine (`ReqMgrTrace.trace`) and print one record per step, then the
-drain records, then `end`. -/
+/-- A record as the harness prints it for the model of the Go code: additionally `o=0` - no
+receiver is handed the object the pull function returned (`ReqMgr.copyOf`: nil or a fresh copy;
+`Pko.Props.C20.sent_package_is_fresh_copy`) - and, inside a parked broadcast (`ReqMgrFine`:
+`bc.isSome`), `l=1`: the lock is held.  The monitor looks at neither. -/
+def renderRec : Rec → String
+  | .step tag o =>
+    if tag == "P" || tag == "w" then render tag o ++ " o=0 l=1" else render tag o ++ " o=0"
+  | .bad => "BAD-OP"
+  | .fin w => s!"end w={w}"
+
+/-- Run a scenario on a machine (`ReqMgrTrace.trace`) and print one record per step (several for
+a parked broadcast), then the drain records, then `end`. -/
 def traceStr {σ : Type} (m : Machine σ) (steps : List JStep) : List String :=
   (trace m (steps.map toSStep)).map renderRec
+
+/-- The same with parked broadcasts looked at once they are over (`ReqMgrTrace.traceC`). -/
+def traceCStr {σ : Type} (m : Machine σ) (steps : List JStep) : List String :=
+  (traceC m (steps.map toSStep)).map renderSpec
 
 /-- The trivial model of the free-running exploration stream: everybody is answered once per
 call, nothing wrong, nothing aliased, pulls never overlap and never outnumber the requests. -/
@@ -99,6 +138,38 @@ def rets (s : String) : List (String × String) :=
     match w.splitOn ":" with
     | c :: rest => (c, ":".intercalate rest)
     | [] => (w, "")
+
+/-- drop the fields the property does not talk about (`o=`, `l=`) -/
+def stripExtra (r : String) : String :=
+  " ".intercalate ((r.splitOn " ").filter fun w => !(w.startsWith "o=" || w.startsWith "l="))
+
+def callerNum (c : String) : Nat := ((c.drop 1).toString.toNat?).getD 0
+
+/-- `ReqMgrTrace.collapse` on the implementation's records: the records of a parked broadcast
+(`P`, then `w`/`b`, then `U`) become one `U` record - pulls started / in flight as at `U`, everybody
+answered at `P` or `U`, aliased packages added up.  A group that does not end in `U` (the harness
+gave up: `TIMEOUT`) is represented by the record that ended it. -/
+def collapseGot (recs : List String) : List String := Id.run do
+  let mut out : Array String := #[]
+  let mut cur : Option String := none
+  for r in recs do
+    match cur with
+    | none =>
+      if r.startsWith "P " then cur := some r else out := out.push (stripExtra r)
+    | some p =>
+      if r.startsWith "w " || r.startsWith "b " then continue
+      else if r.startsWith "U " then
+        let rs := (rets (field p "r") ++ rets (field r "r")).mergeSort
+          (fun a b => callerNum a.1 ≤ callerNum b.1)
+        let rstr := if rs.isEmpty then "-" else ",".intercalate (rs.map fun (c, x) => s!"{c}:{x}")
+        let a := ((field p "a").toNat?.getD 1) + ((field r "a").toNat?.getD 1)
+        out := out.push s!"U p={field r "p"} f={field r "f"} r={rstr} a={a}"
+        cur := none
+      else
+        out := out.push (stripExtra r)
+        cur := none
+  if let some p := cur then out := out.push (stripExtra p)
+  return out.toList
 
 /-- Compare one implementation record with the specified one; `none` = conforms. -/
 def checkRec (k : Nat) (want got : String) : Option String :=
@@ -135,8 +206,13 @@ def monitor (sc : Scn) (out : String) : String :=
     else if out.startsWith "TIMEOUT" then s!"bad timeout free {out}"
     else s!"bad free-summary want={freeLine f} got={out}"
   | none => Id.run do
-    let want := traceStr specMachine (sc.steps.getD [])
-    let got := if out.isEmpty then [] else out.splitOn ";"
+    let want := traceCStr specMachine (sc.steps.getD [])
+    let raw := if out.isEmpty then [] else out.splitOn ";"
+    -- at most one pull per image in flight, at every observation (also inside a parked broadcast)
+    for g in raw do
+      if (g.startsWith "P " || g.startsWith "w " || g.startsWith "U ") && (nats (field g "f")).any (· > 1) then
+        return s!"bad overlap more than one pull of an image in flight: {g}"
+    let got := collapseGot raw
     let mut k := 0
     for (w, g) in want.zip got do
       match checkRec k w g with
